@@ -94,7 +94,7 @@ def rft(data, delta):
     """
     DATA = numpy.fft.fftshift(
             numpy.fft.rfft(
-                    numpy.fft.fftshift(data, axes=(-1))),
+                    numpy.fft.ifftshift(data, axes=(-1))),
             axes=(-1)) * delta
     return DATA
 
@@ -110,10 +110,10 @@ def irft(data, delta_f):
         ndarray: Scaled data in real space
     """
 
-    DATA = numpy.fft.ifftshift(
+    DATA = numpy.fft.fftshift(
             numpy.fft.irfft(
                     numpy.fft.ifftshift(data, axes=(-1))),
-            axes=(-1)) * data.shape[-1] * delta_f
+            axes=(-1)) * 2 * (data.shape[-1] - 1) * delta_f
 
     return DATA
 
@@ -130,7 +130,7 @@ def rft2(data, delta):
     """
     DATA = numpy.fft.fftshift(
             numpy.fft.rfft2(
-                    numpy.fft.fftshift(data, axes=(-1,-2))
+                    numpy.fft.ifftshift(data, axes=(-1,-2))
                     ), axes=(-1,-2)
             )*delta**2
 
@@ -147,11 +147,11 @@ def irft2(data, delta_f):
     Returns:
         ndarray: Scaled data in real space
     """
-    N = data.shape[-1]
-    DATA = numpy.fft.ifftshift(
+    N = data.shape[-2]
+    DATA = numpy.fft.fftshift(
             numpy.fft.irfft2(
                     numpy.fft.ifftshift(data, axes=(-1,-2)), 
-                    axes=(-1,-2)
+                    axes=(-2,-1)
                     ),
             axes=(-1,-2)) * (N * delta_f)**2
     return DATA
